@@ -450,6 +450,9 @@ def run_registry(prop, tier, seed):
             v.exhaustive = True
     if prop == "C01":
         nonvacuity(v)
+    if prop == "C02":
+        import algebra
+        algebra.run_algebra(v, "C02", seed)
     # deep random behaviours from TLC's simulator, replayed the same way
     n, d = (150, 8) if q else (3000, 12)
     ops = "" if prop in ("C01", "C02") else "codec"
@@ -471,6 +474,17 @@ def run_registry(prop, tier, seed):
     if prop in ("C01", "C02") and (not q or os.environ.get("VERIF_SUITE_TRACE") == "1"):
         suite_trace(v, prop)
     if prop == "C15":
+        walk = run_isolated_walk(seed)
+        v.impl += walk["n"]
+        v.evaluations += walk["n"]
+        v.nontrivial += walk["n"]
+        seen_keys = set()
+        for k, dd in walk["bad"]:
+            if k not in seen_keys:
+                seen_keys.add(k)
+                v.violations.append({"prop": "C15", "key": k, "detail": dd, "path": [k]})
+        v.extra["registry_walk"] = {"objects": walk["objects"], "roundtrips": walk["n"], "violating": len(walk["bad"])}
+    if prop == "C15":
         v.rule = ("cases = transitions of the TLC state graph of MC_Registry with Dump/Load/LoadForeign actions (units and "
                   "quantities of int/float/Decimal magnitude; pickle, copy, deepcopy, JSON), one real execution each; "
                   "non-trivial = executions of a Load or LoadForeign")
@@ -480,6 +494,65 @@ def run_registry(prop, tier, seed):
                   "new Unit._known entry (the only moments at which a stored dimension / a canonical object is decided)")
     v.samples = samples
     return v.finish()
+
+
+def run_isolated_walk(seed):
+    from core import run_isolated
+    return run_isolated(_registry_walk, seed)
+
+
+def _registry_walk(seed):
+    """C15's registry-wide quantifier: EVERY registered dimension, prefix and unit of the shipped modules (the Load action of
+    the spec over the whole shipped universe: the prescribed result is always the identical object, names unchanged, table unchanged)"""
+    import sys
+    from core import REPO
+    sys.path.insert(0, os.path.join(REPO, "src"))
+    import measured
+    import measured.systems  # noqa: F401
+    from measured import Dimension, Prefix, Unit
+    from measured.json import MeasuredJSONDecoder, MeasuredJSONEncoder, codecs_installed
+    from decimal import Decimal
+    out = {"n": 0, "bad": [], "objects": 0}
+    objs = [("dimension", d) for d in dict.fromkeys(Dimension._by_name.values())]
+    objs += [("prefix", p) for p in dict.fromkeys(Prefix._by_name.values())]
+    objs += [("unit", u) for u in dict.fromkeys(Unit._by_name.values())]
+    out["objects"] = len(objs)
+    sizes = (len(Dimension._known), len(Prefix._known), len(Unit._known))
+    for kind, o in objs:
+        names = (getattr(o, "names", None), getattr(o, "symbols", None), getattr(o, "name", None), getattr(o, "symbol", None))
+        for codec, f in (("pickle", lambda x: pickle.loads(pickle.dumps(x))), ("copy", copy.copy), ("deepcopy", copy.deepcopy),
+                         ("json", lambda x: json.loads(json.dumps(x, cls=MeasuredJSONEncoder), cls=MeasuredJSONDecoder))):
+            out["n"] += 1
+            try:
+                back = f(o)
+            except Exception as ex:
+                out["bad"].append(["walk:%s-%s:raised:%s" % (kind, codec, type(ex).__name__), "%r" % (o,)])
+                continue
+            if back is not o:
+                out["bad"].append(["walk:%s-%s:not-identical" % (kind, codec), "%r came back as %r" % (o, back)])
+        after = (getattr(o, "names", None), getattr(o, "symbols", None), getattr(o, "name", None), getattr(o, "symbol", None))
+        if after != names:
+            out["bad"].append(["walk:%s:names-changed" % kind, "%r" % (o,)])
+        if kind == "unit":
+            for mag in (7, 2.5, Decimal("1.25")):
+                q = measured.Quantity(mag, o)
+                for codec, f in (("pickle", lambda x: pickle.loads(pickle.dumps(x))), ("copy", copy.copy), ("deepcopy", copy.deepcopy),
+                                 ("json", lambda x: json.loads(json.dumps(x, cls=MeasuredJSONEncoder), cls=MeasuredJSONDecoder))):
+                    out["n"] += 1
+                    try:
+                        back = f(q)
+                    except Exception as ex:
+                        out["bad"].append(["walk:quantity-%s:raised:%s" % (codec, type(ex).__name__), "%r" % (q,)])
+                        continue
+                    if type(back.magnitude) is not type(mag) or back.magnitude != mag:
+                        out["bad"].append(["walk:quantity-%s:magnitude" % codec, "%r -> %r" % (q, back)])
+                    if codec != "json" and back.unit is not o:
+                        out["bad"].append(["walk:quantity-%s:unit-not-identical" % codec, "%r -> %r" % (q, back)])
+                    if codec == "json" and back.unit is not o and not (back == q):
+                        out["bad"].append(["walk:quantity-json:not-equal", "%r -> %r" % (q, back)])
+    if (len(Dimension._known), len(Prefix._known)) != sizes[:2]:
+        out["bad"].append(["walk:tables-grew", "dimension/prefix tables grew during round trips"])
+    return out
 
 
 def suite_trace(v, prop):
